@@ -115,8 +115,7 @@ func c09Run(cf c09Cfg, seq []c09Op, verbose bool) (st c09State, verr error) {
 				}
 			}
 		}
-		for i, op := range seq {
-			last := i == len(seq)-1
+		for _, op := range seq {
 			switch op.Kind {
 			case "F":
 				var vs []ver
@@ -134,13 +133,11 @@ func c09Run(cf c09Cfg, seq []c09Op, verbose bool) (st c09State, verr error) {
 					verr = oerr("c09/flush-error", "%v", err)
 					return
 				}
-				if last {
-					check("after-flush")
-				}
+				// lookups after every step, not only the last: reads warm whatever the read path keeps between calls
+				// (a cache, an open file), and a later flush or compaction must not leave that state stale
+				check("after-flush")
 				lm.Compact()
-				if last {
-					check("after-compaction")
-				}
+				check("after-compaction")
 			case "W":
 				if next-1 >= c09FirstVersion+op.N {
 					w := next - 1 - op.N
@@ -153,9 +150,7 @@ func c09Run(cf c09Cfg, seq []c09Op, verbose bool) (st c09State, verr error) {
 			case "R":
 				lm, _ = lm.Reopen()
 				recovered = true
-				if last {
-					check("after-recover")
-				}
+				check("after-recover")
 			}
 			if verbose {
 				fmt.Printf("  %-14s watermark=%d tables: %s\n", op, maxWM, dumpTables(lm))
